@@ -527,6 +527,16 @@ func nbtJudge(env *vk.Env, tr *vk.Trace, label string) {
 	}
 }
 
+// nbtFlush judges and resets the trace when it has grown large (TLC loads the whole file into memory)
+func nbtFlush(env *vk.Env, tr **vk.Trace, label string, part *int, force bool) {
+	if (*tr).N == 0 || (!force && (*tr).N < 15000) {
+		return
+	}
+	*part++
+	nbtJudge(env, *tr, fmt.Sprintf("%s [part %d]", label, *part))
+	*tr = &vk.Trace{}
+}
+
 func replayNBT(env *vk.Env, b []byte) {
 	var f struct {
 		Replay struct {
@@ -613,6 +623,7 @@ func runC01(env *vk.Env) {
 		return
 	}
 	rng := newRand(env.Seed, "c01")
+	part := 0
 	tr := &vk.Trace{}
 	for i, v := range vecs {
 		nbtDecodeAll(tr, v.Fmt, bytesOf(v.Bytes), v.Tree, "universe", rng, false)
@@ -623,8 +634,9 @@ func runC01(env *vk.Env) {
 	}
 	nbtJudge(env, tr, "A universe documents x decode targets")
 	tr = &vk.Trace{}
-	nd := env.Pick(150, 3000)
+	nd := env.Pick(150, 25000)
 	for i := 0; i < nd; i++ {
+		nbtFlush(env, &tr, "B random documents x decode targets", &part, false)
 		tree := randTree(rng, 1+rng.Intn(4), 0)
 		fmtName := []string{"file", "network"}[rng.Intn(2)]
 		name := []byte{}
@@ -633,10 +645,11 @@ func runC01(env *vk.Env) {
 		}
 		nbtDecodeAll(tr, fmtName, nbtDocBytes(fmtName, name, tree), tree, "random", rng, false)
 	}
-	nbtJudge(env, tr, "B random documents x decode targets")
+	nbtFlush(env, &tr, "B random documents x decode targets", &part, true)
 	tr = &vk.Trace{}
-	ne := env.Pick(400, 6000)
+	ne := env.Pick(400, 60000)
 	for i := 0; i < ne; i++ {
+		nbtFlush(env, &tr, "B random Go values through the encoder", &part, false)
 		t := randGoType(rng, 1+rng.Intn(3))
 		v := randGoValue(rng, t)
 		fmtName := []string{"file", "network"}[rng.Intn(2)]
@@ -647,7 +660,7 @@ func runC01(env *vk.Env) {
 		tr.Add(nbtEncEvent(t, v, fmtName, name, rng.Intn(2) == 0, ""))
 		env.Distinct("enc/" + goSigClass(t) + "/" + t.K)
 	}
-	nbtJudge(env, tr, "B random Go values through the encoder")
+	nbtFlush(env, &tr, "B random Go values through the encoder", &part, true)
 }
 
 // ---------------------------------------------------------------- C02
@@ -681,10 +694,12 @@ func runC02(env *vk.Env) {
 		return
 	}
 	rng := newRand(env.Seed, "c02")
+	part := 0
 	// typed round trips
 	tr := &vk.Trace{}
-	ne := env.Pick(900, 12000)
+	ne := env.Pick(900, 120000)
 	for i := 0; i < ne; i++ {
+		nbtFlush(env, &tr, "B typed round trips (random type expressions + probes)", &part, false)
 		t := randGoType(rng, 1+rng.Intn(3))
 		v := randGoValue(rng, t)
 		fmtName := []string{"file", "network"}[rng.Intn(2)]
@@ -708,10 +723,11 @@ func runC02(env *vk.Env) {
 			tr.Add(nbtEncEvent(p.Ty, p.Val, "file", "root", byPtr, p.Name))
 		}
 	}
-	nbtJudge(env, tr, "B typed round trips (random type expressions + probes)")
+	nbtFlush(env, &tr, "B typed round trips (random type expressions + probes)", &part, true)
 	// carriers: byte-exact re-emission at the root, in a compound field, in a map, in a list
 	tr = &vk.Trace{}
 	for i, v := range vecs {
+		nbtFlush(env, &tr, "B carriers re-emit byte for byte", &part, false)
 		for _, tg := range []string{"raw", "dynbt"} {
 			tr.Add(nbtDecode(v.Fmt, append(bytesOf(v.Bytes), 0x0a, 0x00), tg, "universe"))
 		}
@@ -719,8 +735,9 @@ func runC02(env *vk.Env) {
 			tr.Add(nbtCarrierNested(v, rng.Intn(3)))
 		}
 	}
-	nd := env.Pick(150, 2500)
+	nd := env.Pick(150, 20000)
 	for i := 0; i < nd; i++ {
+		nbtFlush(env, &tr, "B carriers re-emit byte for byte", &part, false)
 		tree := randTree(rng, 1+rng.Intn(4), 0)
 		fmtName := []string{"file", "network"}[rng.Intn(2)]
 		doc := nbtDocBytes(fmtName, bytesOf(randKey(rng)), tree)
@@ -728,7 +745,7 @@ func runC02(env *vk.Env) {
 			tr.Add(nbtDecode(fmtName, doc, tg, "random"))
 		}
 	}
-	nbtJudge(env, tr, "B carriers re-emit byte for byte")
+	nbtFlush(env, &tr, "B carriers re-emit byte for byte", &part, true)
 }
 
 // nbtCarrierNested wraps the document's root value into a compound / list, decodes it into a struct
@@ -963,9 +980,11 @@ func runC03(env *vk.Env) {
 		return
 	}
 	rng := newRand(env.Seed, "c03")
+	part := 0
 	tr := &vk.Trace{}
-	nm := env.Pick(3, 10)
+	nm := env.Pick(3, 40)
 	for _, v := range vecs {
+		nbtFlush(env, &tr, "A universe documents: strict prefixes and mutations x decode entry points", &part, false)
 		doc := bytesOf(v.Bytes)
 		// every strict prefix of a small document, into a rotating target
 		if len(doc) <= 24 {
@@ -996,10 +1015,11 @@ func runC03(env *vk.Env) {
 			env.Distinct("hostile/" + class + "/" + tg)
 		}
 	}
-	nbtJudge(env, tr, "A universe documents: strict prefixes and mutations x decode entry points")
+	nbtFlush(env, &tr, "A universe documents: strict prefixes and mutations x decode entry points", &part, true)
 	tr = &vk.Trace{}
-	nd := env.Pick(300, 5000)
+	nd := env.Pick(300, 60000)
 	for i := 0; i < nd; i++ {
+		nbtFlush(env, &tr, "B random documents mutated x decode entry points", &part, false)
 		tree := randTree(rng, 1+rng.Intn(4), 0)
 		fmtName := []string{"file", "network"}[rng.Intn(2)]
 		off := &nbtOffsets{}
@@ -1028,7 +1048,7 @@ func runC03(env *vk.Env) {
 			}
 		}
 	}
-	nbtJudge(env, tr, "B random documents mutated x decode entry points")
+	nbtFlush(env, &tr, "B random documents mutated x decode entry points", &part, true)
 	// fixed-size array destinations: every declared length around the array's own
 	tr = &vk.Trace{}
 	word := func(w int) []int { return make([]int, w) }
